@@ -164,7 +164,6 @@ def stepLine (st : St) (line : String) : St × String :=
     | none => (st, "bad-op")
     | some g =>
       let im : Img := ⟨g, reshape g (dat.map H)⟩
-      let imAbs : Img := ⟨g, reshape g (dat.map fun t => absQ (H t))⟩
       let run (im : Img) : Option Img :=
         match variant, prm with
         | "3d", [zz, zy, zx, oz, oy, ox, nz, ny, nx] =>
@@ -172,20 +171,22 @@ def stepLine (st : St) (line : String) : St × String :=
         | "2d", [zoom, xoff, yoff, n] => some (zoomImageParams2 im (H zoom) (H xoff) (H yoff) (I n) (I opt).toNat)
         | "out", go => (parseGrid go).map fun go => ⟨go, zoomImage3 go im (I opt).toNat⟩
         | _, _ => none
-      match run im, run imAbs with
-      | some r, some m =>
+      match run im with
+      | some r =>
         let go := r.g
         let vt (v : Rat) := fq v (8 * u24 * absQ v)
         let ot (o oin vin : Rat) (lo : Int) (n : Nat) (vout : Rat) (lo' : Int) (n' : Nat) :=
           fq o (32 * u24 * (absQ o + absQ oin + vin * ((lo.natAbs + n : Nat) : Rat) + vout * ((lo'.natAbs + n' : Nat) : Rat)) + pow2 (-100))
-        let vals := (flat r.d).zip (flat m.d)
-        -- box edges are evaluated with a few float operations per axis: 3 * 16 * 2⁻²⁴ * max|result magnitude|
-        let edge : Rat := 48 * u24 * maxAbs (flat m.d)
+        -- magnitude of any sum of products formed on the way: max|in| * (largest total weight of one output voxel) * option scaling;
+        -- 256 float operations on the longest path (3 passes, ≤ ~12 input boxes per output box and axis) + box edges evaluated in float
+        let ex (a b : Rat) : Rat := max 1 (a / b)
+        let big : Rat := maxAbs (flat im.d) * ex go.vx g.vx * ex go.vy g.vy * ex go.vz g.vz * ex g.vx go.vx * ex g.vy go.vy * ex g.vz go.vz
+        let tol : Rat := (4 * 64 + 48) * u24 * big + pow2 (-100)
         (st, s!"geom {go.zmin} {go.ymin} {go.xmin} {go.nz} {go.ny} {go.nx} {vt go.vz} {vt go.vy} {vt go.vx} " ++
              s!"{ot go.oz g.oz g.vz g.zmin g.nz go.vz go.zmin go.nz} {ot go.oy g.oy g.vy g.ymin g.ny go.vy go.ymin go.ny} " ++
              s!"{ot go.ox g.ox g.vx g.xmin g.nx go.vx go.xmin go.nx} |" ++
-             String.join (vals.map fun (v, m) => " " ++ fq v (256 * u24 * (max (absQ v) (absQ m)) + edge + pow2 (-100))))
-      | _, _ => (st, "bad-op")
+             String.join ((flat r.d).map fun v => " " ++ fq v tol))
+      | none => (st, "bad-op")
   | "cog" :: "|" :: rest =>
     let (gi, dat) := splitBar rest
     match parseGrid gi with
